@@ -141,6 +141,15 @@ func c07RestCases() []c07Case {
 	add("body-scalar", "Scalar", "/v1/scalar/x/leaf", "name=top", "application/json", []byte(`-12`))
 	add("body-httpbody", "Blob", "/v1/blob/file%2Ename", "num=1", "image/png", []byte{0x89, 'P', 'N', 'G', 0, 0xff})
 	add("body-httpbody-empty", "Blob", "/v1/blob/f", "", "text/plain; charset=utf-8", nil)
+	// precedence: body, then path variables, then query parameters - a query parameter that
+	// names a field also bound by the path (or set by the body) is applied last
+	add("query-names-path-variable", "Pure", "/v1/pure/from-path", "name=from-query", "", nil)
+	add("query-names-path-variable-and-more", "Pure", "/v1/pure/from-path", "num=3&name=from-query&name=second", "", nil)
+	add("query-names-nested-path-variable", "Nested", "/v1/nested/from-path:act", "child.name=from-query", "application/json", []byte(`["t"]`))
+	add("query-names-nested-path-variable", "Scalar", "/v1/scalar/x/from-path", "child.child.name=x/from-query", "application/json", []byte(`7`))
+	add("query-names-multi-segment-variable", "Multi", "/v1/multi/a/b", "name=c/d", "", nil)
+	add("query-names-body-field", "Idem", "/v1/idem/k", "child.name=from-query&child.num=8", "application/json", []byte(`{"name":"from-body","num":1}`))
+	add("query-names-body-star-field", "Unary", "/v1/unary", "name=from-query&num=2", "application/json", []byte(`{"name":"from-body","num":1}`))
 	for i, m := range msgAlphabet {
 		add(fmt.Sprintf("body-star:%d", i), "Unary", "/v1/unary", "", "application/json", []byte(m))
 	}
